@@ -93,12 +93,30 @@ func runC02(cx *ctx) {
 			cx.ru.Do(func() *h.Case {
 				return srCase("truncate-boundary", key, ct[:o], false, nil, false, []int{C}, pt, ct, fmt.Sprintf("pt=%d truncated to %d", n, o))
 			})
+			rr3 := rr.Fork()
+			cx.ru.Do(func() *h.Case {
+				b := append([]byte(nil), ct...)
+				b[o] ^= 1 << uint(rr3.Intn(8))
+				return srCopyCase("bitflip-boundary-copy", key, b, false, randPieces(rr3), rr3.Bool(), rr3.Intn(4), pt, ct, fmt.Sprintf("pt=%d flip at %d", n, o))
+			})
 		}
 		for _, ex := range []int{1, 2, 3, E - 1, E, E + 1} {
 			ex := ex
 			rr2 := rr.Fork()
 			cx.ru.Do(func() *h.Case {
 				return srCase("extend", key, append(append([]byte(nil), ct...), rr2.Bytes(ex)...), false, nil, false, []int{C}, pt, ct, fmt.Sprintf("pt=%d extended by %d", n, ex))
+			})
+			for mode := 0; mode < 4; mode++ {
+				mode := mode
+				rr3 := rr.Fork()
+				cx.ru.Do(func() *h.Case {
+					return srCopyCase("extend-copy", key, append(append([]byte(nil), ct...), rr3.Bytes(ex)...), false, randPieces(rr3), rr3.Bool(), mode, pt, ct, fmt.Sprintf("pt=%d extended by %d", n, ex))
+				})
+			}
+			rr4 := rr.Fork()
+			cx.ru.Do(func() *h.Case {
+				cut := 1 + rr4.Intn(len(ct))
+				return srCopyCase("truncate-copy", key, ct[:len(ct)-cut], false, randPieces(rr4), rr4.Bool(), rr4.Intn(4), pt, ct, fmt.Sprintf("pt=%d truncated by %d", n, cut))
 			})
 		}
 	}
